@@ -110,6 +110,7 @@ inductive Res where
   | ok
   | errTrigger
   | errRoll
+  | errEncode     -- the encoder returned `Err` (only produced by `appendFail`)
   deriving Repr, DecidableEq
 
 structure Out where
@@ -188,6 +189,26 @@ def append (cfg : Cfg σ) (s : St σ) (r : Rec) (fault : Nat → Bool) : Out × 
     let (res, rolled, s) := process cfg s w.len fault
     ({ res, consult := some consult, rolled }, s)
 
+/-- `append` with an encoder that writes its first `n` slices and then returns `Err`:
+`self.encoder.encode(…)?` leaves the function at once — no flush, and in post-process mode no
+policy consultation. The slices already written stay in the `LogWriter` (its `len` counts them) or
+are on disk if they spilled; they reach the file with the next record, or when the writer is
+dropped (roll, restart). This is the code as it is (finding `C05/encoder-error-torn`). -/
+def appendFail (cfg : Cfg σ) (s : St σ) (r : Rec) (n : Nat) (fault : Nat → Bool) : Out × St σ :=
+  let (s, w) := getWriter cfg s
+  if cfg.trig.pre then
+    let consult := (w.len, (fileOf cfg s.disk).length)
+    let (res, rolled, s) := process cfg s w.len fault
+    match res with
+    | .ok =>
+      let (s, w) := getWriter cfg s
+      let (d1, w1) := writeRec cfg s.disk w (r.take n)
+      ({ res := .errEncode, consult := some consult, rolled }, { s with disk := d1, writer := some w1 })
+    | e => ({ res := e, consult := some consult, rolled }, s)
+  else
+    let (d1, w1) := writeRec cfg s.disk w (r.take n)
+    ({ res := .errEncode, consult := none, rolled := none }, { s with disk := d1, writer := some w1 })
+
 /-- `RollingFileAppenderBuilder::build` on the current disk: fresh trigger, file opened immediately -/
 def build (cfg : Cfg σ) (s : St σ) : St σ :=
   (getWriter cfg { s with writer := none, tst := cfg.trig.reinit s.tst s.now, opened := false }).1
@@ -224,5 +245,20 @@ def run (cfg : Cfg σ) (s : St σ) : List Op → List (Option Out) × St σ
 def trace (cfg : Cfg σ) (s : St σ) : List Op → List (Option Out × St σ)
   | [] => []
   | op :: ops => applyOp cfg s op :: trace cfg (applyOp cfg s op).2 ops
+
+/-- histories that also contain appends whose encoder fails (the theorems are about `Op`
+histories; these are what the driver runs) -/
+inductive XOp where
+  | op (o : Op)
+  | appendFail (r : Rec) (n : Nat) (fault : Option Nat)
+  deriving Repr
+
+def applyX (cfg : Cfg σ) (s : St σ) : XOp → Option Out × St σ
+  | .op o => applyOp cfg s o
+  | .appendFail r n f => let (o, s') := appendFail cfg s r n (faultFn f); (some o, s')
+
+def traceX (cfg : Cfg σ) (s : St σ) : List XOp → List (Option Out × St σ)
+  | [] => []
+  | op :: ops => applyX cfg s op :: traceX cfg (applyX cfg s op).2 ops
 
 end Log4rs.Rolling
